@@ -323,6 +323,13 @@ class Make:
                 m2 = max([m] + [mtime(d) for d in disc if (d in files or d in node_mtime)])
                 if m2 != m and not own:
                     own, own_reason = self.own_dirty(g, e, files, m2, cf_trust_after_failed_touch)
+                    if (cf_dyndep_restat_late and not own and e.get('dd') and e.get('dd_restat') and not e.get('restat')
+                            and node_dirty.get(e['dd'])):
+                        # the same "judged before its dyndep file added restat" test with the discovered inputs counted
+                        own, own_reason = self.own_dirty(g, e, files, m2, cf_trust_after_failed_touch, no_restat=True)
+                        if own:
+                            late.add(k)
+                            own_reason += ' (judged before its dyndep file added restat)'
                 m = m2
                 disc_used[k] = disc
             else:
